@@ -24,7 +24,7 @@ RULE = ("cases: trees with critical flags on jobs and schedulers at every level,
         "digest")
 ASSUMPTIONS = RT_ASSUMPTIONS
 
-PROFILE = S.GENERAL.but(
+PROFILE = S.GENERAL.but(p_verbose=20, 
     p_raise=28, p_critical=45, p_nested=28, p_forever=10, p_wild=25,
     timeouts=((None, 6), (0, 2), (0.5, 1), (1, 2), (1.5, 1), (2, 2), (2.5, 1), (3, 2),
               (4, 1), (4.5, 1), (5, 1), (6, 1), (8, 1)),
@@ -145,6 +145,15 @@ def oracle(case, trace, ix, res, prefix='C04', focus=None):
                      "%s failed (%s) but returned False instead of raising" % (ctx, kind),
                      context(ix))
         if kind == 'timeout':
+            tabs = ix.t_abs(sid)
+            first_cancel = min([e['t'] for m in sp['members'] for e in ix.cancel_reqs(m['id'])],
+                               default=None)
+            if tabs is not None and (ev['t'] < tabs or (first_cancel is not None
+                                                        and first_cancel < tabs)):
+                res.fail(prefix + ':timeout-reported-before-expiry',
+                         "%s reports a timeout at t=%s (first cancellation at t=%s) but its "
+                         "timeout only expires at t=%s" % (ctx, ev['t'], first_cancel, tabs),
+                         context(ix))
             if not fto or fc or not str(why).startswith('TIMED OUT'):
                 res.fail(prefix + ':diagnosis-timeout',
                          "%s timed out but failed_time_out()=%s failed_critical()=%s why()=%r"
@@ -179,3 +188,8 @@ def evaluate_one(case):
 
 from ._rt import with_variants                     # noqa: E402
 evaluate = with_variants(evaluate_one)
+
+
+def sweeps(tier):
+    # deterministic part: time values just above a minute, 1000 s, an hour, a day
+    return [S.time_ladder_sweep()]
